@@ -466,6 +466,8 @@ func runC10(p *eng.Prog, r *eng.Report, tier string) {
 	c05DeferWriterAs(c, "C10.6")
 	closerFresh(c, "C10.6")
 	c10ReplyAfterClose(c, "C10.9")
+	lockOrder(c, "C10.10")
+	c10DeadlinePlumbing(c, "C10.11")
 }
 
 func containsNode(root, n ast.Node) bool {
@@ -733,4 +735,94 @@ func c10ReplyAfterClose(c *cx, id string) {
 		c.r.Check(id, f, "error of "+src+" returned", "G: an error of "+src+" ends Serve only if it is not ErrOutputStreamClosed (after a local Close Serve continues until the peer closes)", rs.Pos(), okd, why)
 	}
 	c.r.Floor(id, "returns of write errors after the handler in handleInputStream", n, 2)
+}
+
+// c10DeadlinePlumbing (C10.11): the wrapper that the session puts around a
+// non-net.Conn transport forwards deadlines by kind. The function stored in
+// conn.rd is nil or the SetReadDeadline method value of the previous
+// connection, conn.wd nil or its SetWriteDeadline; conn.SetReadDeadline calls
+// rd and conn.SetWriteDeadline calls wd. (A copy-paste slip that stores the
+// write setter in rd makes SetCloseDeadline set a write deadline: Serve stays
+// blocked in its read past the close deadline.)
+func c10DeadlinePlumbing(c *cx, id string) {
+	n := 0
+	want := map[string]string{"rd": "SetReadDeadline", "wd": "SetWriteDeadline"}
+	for _, f := range c.allFns() {
+		if f.Body == nil || !strings.HasPrefix(f.Short, "xmpp.") {
+			continue
+		}
+		g := f.Graph()
+		check := func(fld string, val ast.Expr, pt eng.Point, pos token.Pos) {
+			n++
+			bad := ""
+			var walk func(e ast.Expr, pt eng.Point, depth int)
+			walk = func(e ast.Expr, pt eng.Point, depth int) {
+				if depth > 3 || bad != "" {
+					return
+				}
+				switch x := ast.Unparen(e).(type) {
+				case *ast.Ident:
+					if x.Name == "nil" {
+						return
+					}
+					v, _ := f.Info().ObjectOf(x).(*types.Var)
+					if v == nil || !eng.IsLocal(v) {
+						bad = "value is " + f.Norm(e, &pt)
+						return
+					}
+					for _, d := range g.ReachingDefs(v, pt) {
+						if d.Kind == eng.DefZero {
+							continue
+						}
+						if d.RHS == nil {
+							bad = "opaque definition of " + x.Name
+							return
+						}
+						walk(d.RHS, d.At, depth+1)
+					}
+				case *ast.SelectorExpr:
+					if x.Sel.Name != want[fld] {
+						bad = "the " + x.Sel.Name + " method is stored in conn." + fld
+					}
+				default:
+					bad = "value is " + f.Norm(e, &pt)
+				}
+			}
+			walk(val, pt, 0)
+			c.r.Check(id, f, "function stored in conn."+fld, "K: conn."+fld+" is nil or the "+want[fld]+" method value of the wrapped connection", pos, bad == "", bad)
+		}
+		for _, lit := range f.WalkLits("xmpp.conn") {
+			pt, _ := g.Where(lit)
+			for fld := range want {
+				if v := structLitField(lit, fld); v != nil {
+					check(fld, v, pt, v.Pos())
+				}
+			}
+		}
+		for fld := range want {
+			for _, w := range f.FieldWrites("xmpp.conn." + fld) {
+				if w.RHS != nil {
+					pt, _ := g.Where(w.Stmt)
+					check(fld, w.RHS, pt, w.Stmt.Pos())
+				}
+			}
+		}
+	}
+	c.r.Floor(id, "stores of the deadline functions of conn", n, 2)
+	for m, fld := range map[string]string{"SetReadDeadline": "rd", "SetWriteDeadline": "wd"} {
+		f := c.fn(id, "", "(*conn)."+m)
+		if f == nil {
+			continue
+		}
+		calls, other := 0, ""
+		for _, cl := range f.AllCalls() {
+			switch f.CalleeID(cl) {
+			case "field:xmpp.conn." + fld:
+				calls++
+			case "field:xmpp.conn.rd", "field:xmpp.conn.wd":
+				other = f.CalleeID(cl)
+			}
+		}
+		c.r.Check(id, f, "conn."+m+" forwards to conn."+fld, "K: the wrapper's "+m+" calls the stored "+fld+" function (and not the other one)", f.Pos(), calls >= 1 && other == "", "calls "+other)
+	}
 }
